@@ -2,8 +2,9 @@
 from __future__ import annotations
 
 import ast
+import re
 
-from ..core import INCONCLUSIVE, OK, VIOLATION, Ctx, canon, is_self_attr, local_defs
+from ..core import INCONCLUSIVE, OK, VIOLATION, Ctx, canon, cond_is, is_self_attr, local_defs
 from ..model import AnalysisError, body_walk, norm
 from . import c07, c08, c13
 
@@ -58,43 +59,81 @@ def r10_1(ctx: Ctx):
             tabled_extra = cname == "NBCGeneratorWithLocalMethod" and inds is not None and norm(inds) == f"[{key}.best_individual]"
             conds = []
             cur = st
+            iters = []
             while id(cur) in par:
                 p = par[id(cur)]
-                if isinstance(p, ast.If) and cur in p.body:
-                    conds.append(norm(p.test))
+                if isinstance(p, ast.If):
+                    conds.append(p.test if cur in p.body else ast.UnaryOp(op=ast.Not(), operand=p.test))
+                if isinstance(p, ast.For):
+                    iters.append(norm(p.iter))
                 cur = p
+            gdefs = local_defs(g)
+            import copy
+
+            from ..core import _Subst, bool_equiv, parse_cond
+
+            conds = [_Subst(gdefs, 4).visit(copy.deepcopy(c)) for c in conds]
+            conj = ast.BoolOp(op=ast.And(), values=conds) if len(conds) > 1 else conds[0] if conds else ast.Constant(value=True)
+            act = parse_cond(f"{key}.is_active")
+            mentions = any(isinstance(x, ast.Attribute) and x.attr in ("is_active", "_active") for x in ast.walk(conj)) or any("active" in i for i in iters)
+
+            def implies(a, b):
+                return bool_equiv(ast.BoolOp(op=ast.Or(), values=[ast.UnaryOp(op=ast.Not(), operand=a), b]), ast.Constant(value=True)) is True
+
+            ctext = " and ".join(norm(c) for c in conds) or "no condition"
             if tabled_extra:
-                ok = len(conds) == 1 and f"not {key}.is_active" in conds[0]
-                obs.append(ctx.ob("R10.1", g, st, status=OK if ok else VIOLATION, detail="tabled extra: best individual of a just-finished deme" if ok else f"the local-method extra candidate is offered under `{conds}`", construct="local-extra"))
+                if implies(conj, ast.UnaryOp(op=ast.Not(), operand=act)):
+                    stt = OK
+                elif not mentions or implies(conj, act):
+                    stt = VIOLATION
+                else:
+                    stt = INCONCLUSIVE
+                obs.append(ctx.ob("R10.1", g, st, status=stt, detail="tabled extra: best individual of a just-finished deme" if stt == OK else f"the local-method extra candidate is offered under `{ctext}`", construct="local-extra"))
             else:
-                ok = conds == [f"{key}.is_active"]
-                obs.append(ctx.ob("R10.1", g, st, status=OK if ok else VIOLATION, detail=f"{cname}: candidates offered for exactly the active demes" if ok else f"{cname}: candidates are offered under `{' and '.join(conds) or 'no condition'}` instead of exactly `{key}.is_active` (some active non-leaf deme gets no candidates, or an inactive one does)", construct=f"{cname}:guard"))
+                if implies(conj, act):
+                    stt = OK
+                elif not mentions or implies(conj, ast.UnaryOp(op=ast.Not(), operand=act)):
+                    stt = VIOLATION
+                else:
+                    stt = INCONCLUSIVE
+                obs.append(ctx.ob("R10.1", g, st, status=stt, detail=f"{cname}: candidates offered only for active demes" if stt == OK else f"{cname}: candidates are offered under `{ctext}` instead of `{key}.is_active` (an inactive deme can get candidates)", construct=f"{cname}:guard"))
     return obs
 
 
-def _derives_from(e, src_txt: str, defs, depth=0) -> bool:
-    """Is e a sub-list of the list denoted by src_txt (filtering comprehension / sort / prefix slice / alias)?"""
-    if depth > 6 or e is None:
-        return False
+def _derives_from(e, src_txt: str, defs, depth=0, seen=()) -> str:
+    """Is e a sub-list of the list denoted by src_txt (filtering comprehension / filter() / sort / slice / alias)?
+    'yes' / 'no' (it provably contains other elements: concatenation, literal elements, mapped elements) / 'unknown'."""
+    if depth > 8 or e is None:
+        return "unknown"
     if canon(e) == src_txt:
-        return True
-    if isinstance(e, ast.Name) and e.id in defs:
-        ds = defs[e.id]
-        return bool(ds) and all(_derives_from(d, src_txt, {k: v for k, v in defs.items()}, depth + 1) or (_self_filter(d, e.id)) for d in ds) and any(_derives_from(d, src_txt, defs, depth + 1) for d in ds)
+        return "yes"
+    if isinstance(e, ast.Name):
+        if e.id in seen:
+            return "yes"  # `name = [x for x in name if ...]` re-filters the running list
+        if e.id in defs and defs[e.id]:
+            rs = [_derives_from(d, src_txt, defs, depth + 1, seen + (e.id,)) for d in defs[e.id]]
+            return "no" if "no" in rs else "unknown" if "unknown" in rs else "yes"
+        return "unknown"
     if isinstance(e, ast.ListComp) and len(e.generators) == 1:
         g = e.generators[0]
         if isinstance(g.target, ast.Name) and norm(e.elt) == g.target.id:
-            return _derives_from(g.iter, src_txt, defs, depth + 1)
+            return _derives_from(g.iter, src_txt, defs, depth + 1, seen)
+        inner = _derives_from(g.iter, src_txt, defs, depth + 1, seen)
+        return "no" if inner == "yes" and isinstance(e.elt, ast.Call) else "unknown"
     if isinstance(e, ast.Subscript) and isinstance(e.slice, ast.Slice):
-        return _derives_from(e.value, src_txt, defs, depth + 1)
-    if isinstance(e, ast.Call) and norm(e.func) in ("sorted", "list", "reversed") and e.args:
-        return _derives_from(e.args[0], src_txt, defs, depth + 1)
-    return False
-
-
-def _self_filter(d, name: str) -> bool:
-    """`name = [x for x in name if ...]` re-filters the list in place (still a sub-list)."""
-    return isinstance(d, ast.ListComp) and len(d.generators) == 1 and isinstance(d.generators[0].target, ast.Name) and norm(d.elt) == d.generators[0].target.id and norm(d.generators[0].iter) == name
+        return _derives_from(e.value, src_txt, defs, depth + 1, seen)
+    if isinstance(e, ast.Call) and norm(e.func) in ("sorted", "list", "reversed", "tuple") and e.args:
+        return _derives_from(e.args[0], src_txt, defs, depth + 1, seen)
+    if isinstance(e, ast.Call) and norm(e.func) == "filter" and len(e.args) == 2:
+        return _derives_from(e.args[1], src_txt, defs, depth + 1, seen)
+    if isinstance(e, ast.IfExp):
+        rs = [_derives_from(e.body, src_txt, defs, depth + 1, seen), _derives_from(e.orelse, src_txt, defs, depth + 1, seen)]
+        return "no" if "no" in rs else "unknown" if "unknown" in rs else "yes"
+    if isinstance(e, ast.List):
+        return "yes" if not e.elts else "no"
+    if isinstance(e, ast.BinOp) and isinstance(e.op, (ast.Add, ast.Mult)):
+        return "no"
+    return "unknown"
 
 
 def r10_2(ctx: Ctx):
@@ -120,18 +159,23 @@ def r10_2(ctx: Ctx):
                         if isinstance(n, ast.AugAssign):
                             obs.append(ctx.ob("R10.2", f, n, status=VIOLATION, detail=f"{ci.name}: `{norm(n)}` extends a candidate list"))
                             continue
-                        ok = _derives_from(n.value, src, defs)
-                        obs.append(ctx.ob("R10.2", f, n, status=OK if ok else VIOLATION, detail=f"{ci.name}: stored list is a sub-list of the previous candidates" if ok else f"{ci.name}: `{norm(n.value)[:80]}` is not derived from `{norm(t)}` by filtering / sorting / prefix slicing: the filter can introduce or duplicate candidates"))
+                        dv = _derives_from(n.value, canon(t, defs), defs)
+                        if dv != "yes":
+                            dv2 = _derives_from(n.value, src, defs)
+                            dv = dv2 if dv2 == "yes" else dv
+                        ok = dv == "yes"
+                        obs.append(ctx.ob("R10.2", f, n, status=OK if ok else VIOLATION if dv == "no" else INCONCLUSIVE, detail=f"{ci.name}: stored list is a sub-list of the previous candidates" if ok else f"{ci.name}: `{norm(n.value)[:80]}` is not derived from `{norm(t)}` by filtering / sorting / prefix slicing: the filter can introduce or duplicate candidates"))
                     elif isinstance(t, ast.Subscript) and norm(t.value) == cand_p:
-                        obs.append(ctx.ob("R10.2", f, n, status=VIOLATION, detail=f"{ci.name}: `{norm(n)[:80]}` adds or replaces a parent entry in the candidates mapping"))
+                        key_vars = {x.target.id for x in body_walk(f.node) if isinstance(x, (ast.For, ast.comprehension)) and isinstance(x.target, ast.Name) and canon(x.iter) in (cand_p, f"{cand_p}.keys()", f"list({cand_p})", f"list({cand_p}.keys())")}
+                        obs.append(ctx.ob("R10.2", f, n, status=INCONCLUSIVE if norm(t.slice) in key_vars else VIOLATION, detail=f"{ci.name}: `{norm(n)[:80]}` adds or replaces a parent entry in the candidates mapping"))
             if isinstance(n, ast.Call) and isinstance(n.func, ast.Attribute) and n.func.attr in ("append", "extend", "insert", "update", "setdefault", "__setitem__"):
                 holder = n.func.value
                 names = {x.id for x in ast.walk(holder) if isinstance(x, ast.Name)}
                 if cand_p in names or any(_derives_from(ast.Name(id=x, ctx=ast.Load()), "", defs) for x in ()):
                     obs.append(ctx.ob("R10.2", f, n, status=VIOLATION, detail=f"{ci.name}: `{norm(n)[:80]}` adds to the candidates"))
         rets = [r for r in body_walk(f.node) if isinstance(r, ast.Return)]
-        okr = bool(rets) and all(norm(r.value) == cand_p for r in rets)
-        obs.append(ctx.ob("R10.2", f, rets[0] if rets else f.node, status=OK if okr else VIOLATION, detail=f"{ci.name}: returns the mapping it was given ({n_st} list store(s))" if okr else f"{ci.name}: returns `{norm(rets[0].value) if rets else 'nothing'}` instead of the filtered mapping", construct=f"{ci.name}:return"))
+        okr = bool(rets) and all(r.value is not None and norm(r.value) == cand_p for r in rets)
+        obs.append(ctx.ob("R10.2", f, rets[0] if rets else f.node, status=OK if okr else VIOLATION if (not rets or any(r.value is None for r in rets)) else INCONCLUSIVE, detail=f"{ci.name}: returns the mapping it was given ({n_st} list store(s))" if okr else f"{ci.name}: returns `{norm(rets[0].value) if rets else 'nothing'}` instead of the filtered mapping", construct=f"{ci.name}:return"))
     return obs
 
 
@@ -141,26 +185,51 @@ def r10_3(ctx: Ctx):
     sn = f.self_name()
     cand_p = f.params()[1]
     obs = []
+    defs = local_defs(f)
     stores = [n for n in body_walk(f.node) if isinstance(n, ast.Assign) and isinstance(n.targets[0], ast.Attribute) and n.targets[0].attr == "individuals"]
     if len(stores) != 1:
         return [ctx.ob("R10.3", f, f.node, status=INCONCLUSIVE, detail=f"DemeLimit has {len(stores)} stores", construct="store")]
     st = stores[0]
+    tgt = canon(st.targets[0], defs)
     v = st.value
-    ok = False
-    why = f"`{norm(v)[:90]}` is not `sorted(candidates, reverse=True)[: limit]`"
+    hops = 0
+    while isinstance(v, ast.Name) and len(defs.get(v.id, [])) == 1 and hops < 4:
+        v = defs[v.id][0]
+        hops += 1
+    status = INCONCLUSIVE
+    why = f"`{norm(v)[:90]}` is not recognisable as `sorted(candidates, reverse=True)[: limit]`"
     if isinstance(v, ast.Subscript) and isinstance(v.slice, ast.Slice) and v.slice.lower is None and v.slice.step is None and v.slice.upper is not None:
-        if canon(v.slice.upper) != f"{sn}.limit":
-            why = f"keeps the first `{norm(v.slice.upper)}` candidates instead of `limit`"
-        elif isinstance(v.value, ast.Call) and norm(v.value.func) == "sorted" and v.value.args and canon(v.value.args[0]) == canon(st.targets[0]):
-            rev = next((k.value for k in v.value.keywords if k.arg == "reverse"), None)
-            key = next((k.value for k in v.value.keywords if k.arg == "key"), None)
+        up = canon(v.slice.upper, defs)
+        srt = v.value
+        hops = 0
+        while isinstance(srt, ast.Name) and len(defs.get(srt.id, [])) == 1 and hops < 4:
+            srt = defs[srt.id][0]
+            hops += 1
+        if up != f"{sn}.limit":
+            definite = re.fullmatch(re.escape(f"{sn}.limit") + r"[-+*/]+\d+|\d+", up) is not None
+            status, why = (VIOLATION if definite else INCONCLUSIVE), f"keeps the first `{norm(v.slice.upper)}` candidates instead of `limit`"
+        elif isinstance(srt, ast.Call) and norm(srt.func) == "sorted" and srt.args and canon(srt.args[0], defs) == tgt:
+            rev = next((k.value for k in srt.keywords if k.arg == "reverse"), None)
+            key = next((k.value for k in srt.keywords if k.arg == "key"), None)
             if key is not None:
-                why = "sorts with a key instead of the direction-aware Individual order"
-            elif not (isinstance(rev, ast.Constant) and rev.value is True):
-                why = "does not sort best-first (reverse=True under the Individual order): the kept prefix is not the best"
+                status, why = VIOLATION, "sorts with a key instead of the direction-aware Individual order"
+            elif rev is None or (isinstance(rev, ast.Constant) and rev.value is False):
+                status, why = VIOLATION, "does not sort best-first (reverse=True under the Individual order): the kept prefix is not the best"
+            elif isinstance(rev, ast.Constant) and rev.value is True:
+                status = OK
             else:
-                ok = True
-    obs.append(ctx.ob("R10.3", f, st, status=OK if ok else VIOLATION, detail="keeps the `limit` best candidates (prefix of the best-first order)" if ok else f"DemeLimit {why}", construct="prefix"))
+                why = f"sort direction `{norm(rev)}` is not a constant"
+        elif canon(srt, defs) == tgt:
+            status, why = VIOLATION, "keeps a prefix of the unsorted candidate list: not the best ones"
+    elif isinstance(v, ast.Subscript) and isinstance(v.slice, ast.Slice) and v.slice.upper is None and v.slice.lower is not None and isinstance(v.value, ast.Call) and norm(v.value.func) == "sorted":
+        # sorted(...)[-limit:]  — the best `limit` of an ascending sort
+        rev = next((k.value for k in v.value.keywords if k.arg == "reverse"), None)
+        lo = canon(v.slice.lower, defs)
+        if lo == f"-{sn}.limit" and rev is None and not any(k.arg == "key" for k in v.value.keywords) and canon(v.value.args[0], defs) == tgt:
+            status = OK
+        elif lo == f"-{sn}.limit" and isinstance(rev, ast.Constant) and rev.value is True:
+            status, why = VIOLATION, "keeps the last `limit` of the best-first order: the worst candidates"
+    obs.append(ctx.ob("R10.3", f, st, status=status, detail="keeps the `limit` best candidates (prefix of the best-first order)" if status == OK else f"DemeLimit {why}", construct="prefix"))
     # optional guard must be `len(...) > limit` (or absent)
     from ..core import parents_map
 
@@ -170,14 +239,29 @@ def r10_3(ctx: Ctx):
     while id(cur) in par:
         p = par[id(cur)]
         if isinstance(p, ast.If):
-            conds.append(p.test)
+            conds.append(p.test if cur in p.body else ast.UnaryOp(op=ast.Not(), operand=p.test))
         cur = p
+    import copy
+
+    from ..core import _Subst
+
     for c in conds:
-        okg = canon(c) in (f"len({canon(st.targets[0])})>{sn}.limit", f"len({canon(st.targets[0])})>={sn}.limit")
-        obs.append(ctx.ob("R10.3", f, c, status=OK if okg else VIOLATION, detail="truncation applies whenever there are more candidates than the limit" if okg else f"DemeLimit truncates only under `{norm(c)}`: with other sizes more than `limit` candidates pass", construct="guard"))
+        cs = _Subst(defs, 4).visit(copy.deepcopy(c))
+        tl = f"len({tgt})"
+        okg = cond_is(cs, f"{tl} > {sn}.limit") or cond_is(cs, f"{tl} >= {sn}.limit")
+        if okg:
+            stg = OK
+        elif any(cond_is(cs, f"{tl} {op} {sn}.limit{off}") for op in ("<", "<=", "==", "!=", ">", ">=") for off in ("", " + 1", " - 1", " + 2")):
+            stg = VIOLATION  # another size comparison against the limit
+        else:
+            stg = INCONCLUSIVE
+        obs.append(ctx.ob("R10.3", f, c, status=stg, detail="truncation applies whenever there are more candidates than the limit" if stg == OK else f"DemeLimit truncates only under `{norm(c)}`: with other sizes more than `limit` candidates pass", construct="guard"))
     loops = [n for n in f.node.body if isinstance(n, ast.For)]
-    okl = len(loops) == 1 and norm(loops[0].iter) in (f"{cand_p}.keys()", cand_p) and not any(isinstance(x, (ast.Break, ast.Continue, ast.Return)) for x in ast.walk(loops[0]))
-    obs.append(ctx.ob("R10.3", f, loops[0] if loops else f.node, status=OK if okl else VIOLATION, detail="every parent's list is limited" if okl else "DemeLimit does not limit every parent's candidate list", construct="all-parents"))
+    okl = len(loops) == 1 and canon(loops[0].iter) in (f"{cand_p}.keys()", cand_p, f"list({cand_p})", f"list({cand_p}.keys())")
+    early = okl and any(isinstance(x, (ast.Break, ast.Return)) for x in ast.walk(loops[0]))
+    conts = okl and any(isinstance(x, ast.Continue) for x in ast.walk(loops[0]))
+    stl = OK if (okl and not early and not conts) else VIOLATION if early else INCONCLUSIVE
+    obs.append(ctx.ob("R10.3", f, loops[0] if loops else f.node, status=stl, detail="every parent's list is limited" if stl == OK else "DemeLimit does not limit every parent's candidate list", construct="all-parents"))
     return obs
 
 
@@ -230,47 +314,70 @@ def r10_6(ctx: Ctx):
     v = stores[0].value
     while isinstance(v, ast.Name) and v.id in defs and len(defs[v.id]) == 1:
         v = defs[v.id][0]
-    okp = False
+    st_p = INCONCLUSIVE
     why = f"keep-expression `{norm(v)[:80]}` not recognised"
     seeds_name = None
-    if isinstance(v, ast.ListComp) and len(v.generators) == 1 and len(v.generators[0].ifs) == 1 and isinstance(v.generators[0].target, ast.Name):
+    if isinstance(v, ast.ListComp) and len(v.generators) == 1 and v.generators[0].ifs and isinstance(v.generators[0].target, ast.Name):
         ind = v.generators[0].target.id
-        cond = v.generators[0].ifs[0]
-        if isinstance(cond, ast.UnaryOp) and isinstance(cond.op, ast.Not):
-            inner = cond.operand
-            t = canon(inner)
-            import re
-
-            m = re.fullmatch(r"np\.any\(np\.all\(np\.isclose\((\w+),%s\.genome\),axis=1\)\)" % ind, t) or re.fullmatch(r"np\.any\(np\.all\(np\.isclose\(%s\.genome,(\w+)\),axis=1\)\)" % ind, t)
-            if m:
-                okp = True
-                seeds_name = m.group(1)
-            elif "np.all(np.any(" in t:
-                why = "quantifiers exchanged: a candidate is dropped when every seed matches in SOME coordinate"
-            elif "axis=0" in t:
-                why = "axis=0: rows and coordinates exchanged"
+        ifs = v.generators[0].ifs
+        cond = ifs[0] if len(ifs) == 1 else ast.BoolOp(op=ast.And(), values=list(ifs))
+        negated = False
+        inner = cond
+        while True:
+            if isinstance(inner, ast.UnaryOp) and isinstance(inner.op, ast.Not):
+                negated = not negated
+                inner = inner.operand
+            elif isinstance(inner, ast.Call) and norm(inner.func) == "bool" and len(inner.args) == 1:
+                inner = inner.args[0]
             else:
-                why = f"match predicate `{norm(inner)[:80]}` is not any-row(all-coordinates(isclose))"
+                break
+        import copy
+
+        from ..core import _Subst
+
+        inner_s = _Subst({k: d for k, d in defs.items() if not (len(d) == 1 and isinstance(d[0], ast.Call) and norm(d[0].func) in ("np.array", "np.asarray", "np.vstack", "np.stack"))}, 3).visit(copy.deepcopy(inner))
+        t = canon(inner_s)
+        m = re.fullmatch(r"np\.any\(np\.all\(np\.isclose\((\w+),%s\.genome\),axis=1\)\)" % ind, t) or re.fullmatch(r"np\.any\(np\.all\(np\.isclose\(%s\.genome,(\w+)\),axis=1\)\)" % ind, t) or re.fullmatch(r"np\.all\(np\.isclose\((\w+),%s\.genome\),axis=1\)\.any\(\)" % ind, t) or re.fullmatch(r"np\.isclose\((\w+),%s\.genome\)\.all\(axis=1\)\.any\(\)" % ind, t)
+        if m and negated:
+            st_p = OK
+            seeds_name = m.group(1)
+        elif m and not negated:
+            st_p, why = VIOLATION, f"candidates are kept when `{norm(cond)[:70]}`: the negation is missing (only duplicates of existing seeds pass)"
+        elif "isclose" in t and ("np.all(np.any(" in t):
+            st_p, why = VIOLATION, "quantifiers exchanged: a candidate is dropped when every seed matches in SOME coordinate"
+        elif "isclose" in t and "axis=0" in t:
+            st_p, why = VIOLATION, "axis=0: rows and coordinates exchanged"
+        elif "isclose" in t and ("rtol=" in t or "atol=" in t):
+            st_p, why = INCONCLUSIVE, f"match predicate `{norm(inner)[:80]}` uses non-default tolerances"
         else:
-            why = f"candidates are kept when `{norm(cond)[:70]}`: the negation is missing (only duplicates of existing seeds pass)" if "isclose" in norm(cond) else why
-    obs.append(ctx.ob("R10.6", f, stores[0], status=OK if okp else VIOLATION, detail="kept iff no existing seed row is close in all coordinates" if okp else f"SkipSameSprout: {why}", construct="keep-pred"))
+            why = f"match predicate `{norm(inner)[:80]}` is not recognisable as any-row(all-coordinates(isclose))"
+    obs.append(ctx.ob("R10.6", f, stores[0], status=st_p, detail="kept iff no existing seed row is close in all coordinates" if st_p == OK else f"SkipSameSprout: {why}", construct="keep-pred"))
     if seeds_name:
         sd = defs.get(seeds_name, [])
-        oks = False
+        st_s = INCONCLUSIVE
         if len(sd) == 1:
             e = sd[0]
-            if isinstance(e, ast.Call) and norm(e.func) in ("np.array", "np.asarray") and e.args:
+            if isinstance(e, ast.Call) and norm(e.func) in ("np.array", "np.asarray", "np.vstack", "np.stack") and e.args:
                 e = e.args[0]
             if isinstance(e, ast.ListComp) and len(e.generators) == 2:
                 g1, g2 = e.generators
-                oks = canon(g1.iter) in (f"{tree_p}.levels[{d}.level]", f"{tree_p}._levels[{d}.level]") and isinstance(g1.target, ast.Name) and canon(g2.iter) == f"{g1.target.id}.children" and isinstance(g2.target, ast.Name) and canon(e.elt) == f"{g2.target.id}._sprout_seed.genome" and not g1.ifs and not g2.ifs
-        obs.append(ctx.ob("R10.6", f, sd[0] if sd else stores[0], status=OK if oks else VIOLATION, detail="seed rows = seeds of every child of every deme on the parent's level" if oks else f"SkipSameSprout compares with `{norm(sd[0])[:90] if sd else '?'}`, not with the seeds of all existing demes of the target level", construct="seed-rows"))
+                lvl_ok = canon(g1.iter, defs) in (f"{tree_p}.levels[{d}.level]", f"{tree_p}._levels[{d}.level]")
+                shape = isinstance(g1.target, ast.Name) and isinstance(g2.target, ast.Name) and canon(g2.iter) == f"{g1.target.id}.children" and canon(e.elt) in (f"{g2.target.id}._sprout_seed.genome", f"{g2.target.id}.sprout_seed.genome")
+                if lvl_ok and shape and not g1.ifs and not g2.ifs:
+                    st_s = OK
+                elif shape and not lvl_ok and re.fullmatch(re.escape(f"{tree_p}.") + r"_?levels\[.*\]", canon(g1.iter, defs)):
+                    st_s = VIOLATION
+                elif lvl_ok and shape and (g1.ifs or g2.ifs):
+                    st_s = VIOLATION  # some existing seeds are left out of the comparison
+            elif isinstance(e, ast.ListComp) and len(e.generators) == 1 and canon(e.generators[0].iter) == f"{d}.children":
+                st_s = VIOLATION  # only the parent's own children
+        obs.append(ctx.ob("R10.6", f, sd[0] if sd else stores[0], status=st_s, detail="seed rows = seeds of every child of every deme on the parent's level" if st_s == OK else f"SkipSameSprout compares with `{norm(sd[0])[:90] if sd else '?'}`, not with the seeds of all existing demes of the target level", construct="seed-rows"))
     # the early `continue` only for parents without children
     # normalised form: `if deme.children: <filter>` (an early `continue` for childless parents is inverted into this guard)
     guards = [n for n in loops[0].body if isinstance(n, ast.If) and any(x is stores[0] for x in ast.walk(n))]
     for c in guards:
-        okc = canon(c.test) in (f"{d}.children", f"len({d}.children)>0", f"len({d}.children)!=0") and not c.orelse
-        obs.append(ctx.ob("R10.6", f, c, status=OK if okc else VIOLATION, detail="parents without children are passed through unchanged" if okc else f"SkipSameSprout filters a parent only under `{norm(c.test)}`", construct="skip-cond"))
+        okc = any(cond_is(c.test, w) for w in (f"{d}.children", f"len({d}.children) > 0", f"len({d}.children) != 0", f"{d}.children != []")) and not c.orelse
+        obs.append(ctx.ob("R10.6", f, c, status=OK if okc else INCONCLUSIVE, detail="parents without children are passed through unchanged" if okc else f"SkipSameSprout filters a parent only under `{norm(c.test)}`", construct="skip-cond"))
     if not guards:
         obs.append(ctx.ob("R10.6", f, loops[0], detail="every parent is filtered (no childless shortcut)", construct="skip-cond", trivial=True))
     return obs
